@@ -211,6 +211,74 @@ def _worker_random(job):
     return part
 
 
+def validate_cut_lemma(res, rng, thorough):
+    """The optimality PROOF of find_shortest_path uses one code-independent graph lemma (`astar_cut`) and the three defining facts of
+    graph distance (`dist`).  They are trusted, not machine-checked; this validates them concretely against breadth-first distances:
+    for a set S with s in S, v reachable from s and v not in S there is an edge (y,z), y in S, z not in S, y reachable, with
+    dist(s,z) = dist(s,y)+1 and dist(s,z)+|z-e|_1 <= dist(s,v)+|v-e|_1 for every e."""
+    import itertools
+
+    def check_graph(conn, subsets):
+        R, C = conn.shape[1:]
+        cs = S.cells((R, C))
+        dist = {s: S.bfs_dist(conn, s) for s in cs}
+        for s in cs:
+            d = dist[s]
+            # the defining facts of dist
+            if d.get(s) != 0:
+                res.fail("C02:lemma:dist-zero", "dist(s,s) != 0", {"conn": conn, "s": s}, None)
+            for u in d:
+                for w in S.neighbors(conn, u):
+                    if not (w in d and d[w] <= d[u] + 1):
+                        res.fail("C02:lemma:dist-triangle", "dist grows by more than 1 across an edge", {"conn": conn, "s": s, "u": u, "w": w}, None)
+            for Sset in subsets(cs, s):
+                for v in d:
+                    if v in Sset:
+                        continue
+                    for e in cs:
+                        man = lambda a: abs(a[0] - e[0]) + abs(a[1] - e[1])  # noqa: E731
+                        ok = False
+                        for y in Sset:
+                            if y not in d:
+                                continue
+                            for z in S.neighbors(conn, y):
+                                if z not in Sset and d[z] == d[y] + 1 and d[z] + man(z) <= d[v] + man(v):
+                                    ok = True
+                                    break
+                            if ok:
+                                break
+                        res.seen(("cut", conn.shape, conn.tobytes(), s, tuple(sorted(Sset)), v, e), nontrivial=len(Sset) > 1,
+                                 sample={"conn": conn.astype(int).tolist(), "s": s, "S": sorted(Sset), "v": v, "e": e})
+                        if not ok:
+                            res.fail("C02:lemma:astar_cut", "the cut lemma used by the optimality proof fails on a concrete graph",
+                                     {"conn": conn, "s": s, "S": sorted(Sset), "v": v, "e": e}, None)
+
+    def all_subsets(cs, s):
+        others = [c for c in cs if c != s]
+        for k in range(len(others) + 1):
+            for comb in itertools.combinations(others, k):
+                yield {s, *comb}
+
+    def some_subsets(n):
+        def gen(cs, s):
+            others = [c for c in cs if c != s]
+            for _ in range(n):
+                mask = rng.random(len(others)) < rng.choice([0.2, 0.5, 0.8])
+                yield {s, *[c for c, b in zip(others, mask) if b]}
+        return gen
+
+    t0 = time.time()
+    for R, C in [(1, 2), (2, 1), (2, 2), (1, 3)]:
+        for conn in S.all_conn_lists(R, C):
+            check_graph(conn, all_subsets)
+    for conn in S.all_conn_lists(2, 3):
+        check_graph(conn, some_subsets(3))
+    for _ in range(40 if thorough else 8):
+        R, C = int(rng.integers(3, 5)), int(rng.integers(3, 5))
+        check_graph(S.random_conn(rng, R, C, float(rng.choice([0.4, 0.6, 0.8]))), some_subsets(2))
+    res.seconds = time.time() - t0
+
+
 def run(tier, seed):
     warnings.simplefilter("ignore")
     t0 = time.time()
@@ -242,6 +310,17 @@ def run(tier, seed):
         exhaustive=False,
         functions=["LatticeMaze.find_shortest_path (optimality clause)"],
     )
+    res_lemma = BoundedResult(
+        "C02.lemma-validation",
+        rule="validation of the trusted graph lemma `astar_cut` and the defining facts of `dist` used by the optimality proof, against BFS distances: all graphs on 1x2..2x2/1x3 "
+        "x all sets S containing the source x all (source, target v, goal e); all 128 graphs on 2x3 and seeded random 3x3..4x4 graphs with seeded sets S; non-trivial = |S| > 1",
+        exhaustive=False,
+        functions=["(no repository function: code-independent lemma)"],
+    )
+    try:
+        validate_cut_lemma(res_lemma, rng, thorough)
+    except Exception as ex:  # noqa: BLE001
+        res_lemma.errors.append(f"{type(ex).__name__}: {ex}\n{traceback.format_exc(limit=6)}")
     try:
         import maze_dataset.maze  # noqa: F401  (import before forking)
 
@@ -280,7 +359,7 @@ def run(tier, seed):
             res_big.seconds = time.time() - t0
     except Exception as ex:  # noqa: BLE001
         res_33.errors.append(f"{type(ex).__name__}: {ex}\n{traceback.format_exc(limit=6)}")
-    return [res_small, res_33, res_big]
+    return [res_small, res_33, res_big, res_lemma]
 
 
 def replay(check, inp):
